@@ -39,13 +39,15 @@ def run(prog, rep, tier):
     arm = {v: enum_arm_target(si, v) for v in ('FileStart', 'FileContent', 'EndOfFile', 'EndOfArchiveData')}
 
     # ---------------- R02.2 done only after the hash matched
-    pushes = [b for b in body.calls() if b.term.cmethod == 'push' and 'Vec::<u64>' in b.term.cargs]
+    # the done list: a Vec<u64> that is pushed to, or a HashSet / BTreeSet<u64> that is inserted into
+    pushes = [b for b in body.calls() if (b.term.cmethod == 'push' and 'Vec::<u64>' in b.term.cargs) or
+              (b.term.cmethod == 'insert' and ('HashSet::<u64' in b.term.cargs or 'BTreeSet::<u64' in b.term.cargs))]
     contains = [b for b in body.calls() if b.term.cmethod == 'contains' and 'u64' in b.term.cargs]
     rep.floor('R02.2', len(pushes), 1, 'done-marking pushes')
     done_vecs = set()
     for pb in pushes:
         o = origins(body, [pb.term.args[0].place[0]], through_calls=False)
-        done_vecs |= {l for l in o.locals if body.lty(l).startswith('std::vec::Vec<u64')}
+        done_vecs |= {l for l in o.locals if body.lty(l).startswith(('std::vec::Vec<u64', 'std::collections::HashSet<u64', 'std::collections::BTreeSet<u64'))}
     fin = [b for b in body.calls() if b.term.cmethod == 'finalize' and 'sha2' in b.term.cargs]
     cmp_ok = None
     for bl in body.blocks:
